@@ -25,7 +25,9 @@ FILES = ["a.txt", "b.html", "dir/file.txt", "dir/sub/deep.txt", "dir/.abstract",
          # member names that look like archives themselves (a directory, and a file that is no archive)
          "backups.zip/notes.txt", "broken.zip", "docs/old.zip/",
          # metadata that is not valid UTF-8 (Latin-1 names and abstracts)
-         "dir/.names", "a.txt.abstract", ".cap/a.txt"]
+         "dir/.names", "a.txt.abstract", ".cap/a.txt",
+         # member paths that contain the archive's own file name
+         "XTREEX.zip.txt", "dir/XTREEX.zip.txt", "mirror/XTREEX.zip.d/x.txt"]
 
 
 def gen_members(rng):
@@ -61,6 +63,12 @@ def gen_members(rng):
         if "/../" in t and not any(m[0].startswith(t.split("/../")[0].lstrip("./") + "/") for m in ms):
             t = "docs"      # 'x/../y' with no directory x: the kernel says ENOENT where lexical normalisation says y (outside the domain)
         ms.append((loc, "L", t.encode()))
+    # a link that climbs out of the archive (more '..' than it is deep) towards a name that exists at the archive top:
+    # it dangles in the extracted tree, and must not be re-rooted inside the archive
+    if rng.random() < 0.5:
+        tops = [m[0] for m in ms if m[1] == "F" and "/" not in m[0]]
+        if tops:
+            ms.append((rng.choice(["dir/esc", "docs/deep/esc2", "esc0"]), "L", (rng.choice(["../../", "../../../", "../"]) + rng.choice(tops)).encode()))
     # link chains: a link whose target goes *through* another link (resolution order matters)
     if rng.random() < 0.6:
         base = rng.choice(["dir", "docs", "dir/sub"])
@@ -288,9 +296,10 @@ def _ask(cfg, tree, p, sel, gp):
 
 def _norm(out, prefix):
     out = re.sub(rb"[ \t]*(Last-Modified|Mod-Date):[^\r\n]*\r\n", b"", out)
-    pb = prefix.encode()
-    out = out.replace(pb + b"/", b"/@/").replace(pb, b"/@")
-    out = out.replace(urllib_quote(prefix).encode() + b"/", b"/@/")
+    # the selector prefix is masked where a selector or URL path *starts* (not preceded by a path character): member names may
+    # themselves contain the archive's file name
+    for pb in (prefix.encode(), urllib_quote(prefix).encode()):
+        out = re.sub(rb"(?<![A-Za-z0-9_.%@/-])" + re.escape(pb) + rb"(?![A-Za-z0-9_.-])", b"/@", out)
     # a directory title / name derived from the archive's own name
     out = out.replace(b"XTREEX.zip", b"XTREEX")
     return out
